@@ -739,7 +739,9 @@ class _ManyToOneDP(_DependencyProcessor):
                     [(child_action, after_save), (after_save, save_parent)]
                 )
             else:
-                uow.dependencies.update([(after_save, save_parent)])
+                uow.dependencies.update(
+                    [(after_save, save_parent), (save_parent, child_action)]
+                )
 
         else:
             if childisdelete:
